@@ -313,3 +313,39 @@ func dTotal(g *G) {
 	}
 	g.emit(map[string]interface{}{"k": "api", "called": names, "key": "api-coverage"}, "api")
 }
+
+// CondEv: Condition.GoError / Condition.String on every condition word and a sample of trap sets (C03's mechanism).
+type CondEv struct {
+	K   string `json:"k"` // "cond"
+	R   int    `json:"r"`
+	T   int    `json:"t"`
+	Err string `json:"err"`
+	Ret int    `json:"ret"`
+	S   string `json:"s"`
+	Any bool   `json:"any"`
+	Key string `json:"key"`
+}
+
+func init() {
+	drivers["conditions"] = func(g *G) {
+		traps := []int{0, 0x7af, 4095, 16, 64, 1024, 2048, 1, 2, 3}
+		for i := 0; i < 6; i++ {
+			traps = append(traps, g.R.Intn(4096))
+		}
+		for r := 0; r < 4096; r++ {
+			for _, t := range traps {
+				c := apd.Condition(r)
+				ret, err := c.GoError(apd.Condition(t))
+				g.emit(CondEv{K: "cond", R: r, T: t, Err: errStr(err), Ret: int(ret), S: c.String(), Any: c.Any(),
+					Key: fmt.Sprintf("cond|%d|%d", r, t)}, "cond")
+			}
+		}
+	}
+	reexec["cond"] = func(line []byte) interface{} {
+		var ev CondEv
+		json.Unmarshal(line, &ev)
+		c := apd.Condition(ev.R)
+		ret, err := c.GoError(apd.Condition(ev.T))
+		return CondEv{K: "cond", R: ev.R, T: ev.T, Err: errStr(err), Ret: int(ret), S: c.String(), Any: c.Any(), Key: ev.Key}
+	}
+}
